@@ -612,6 +612,19 @@ V({
     "trusted": ["rustc_hash / std HashMap (abstract)"],
 })
 
+# -------------------------------------------------------------------------- V26
+V({
+    "id": "V26",
+    "title": "rec_solve_root: RecursiveContext::solve_root_goal (chalk-recursive/src/fixed_point.rs)",
+    "template": "v26_solve_root.rs",
+    "assumptions": [
+        "V26: a panic in a database callback abandons the running solve at an arbitrary point and runs no clean-up code of the recursive engine (it has no Drop guard; Rust unwinding semantics) - so solve_root_goal is verified from ANY state satisfying only the engine's invariant 'empty stack => empty search graph'",
+        "V26: solve_goal is havoc with the precondition 'stack and search graph empty' (its text is verified by V18 / V24); Stack::is_empty / Stack::clear / SearchGraph::rollback_to are the obvious Vec operations (assumed contracts)",
+        "V26: a repair of a different shape (a Drop guard that cleans up during unwinding, keeping the assertion) would be reported by this unit although correct; none exists in the tree",
+    ],
+    "trusted": ["chalk-recursive SearchGraph / Stack / Cache (abstract)", "Rust unwinding semantics"],
+})
+
 # ===========================================================================
 GLOBAL_ASSUMPTIONS = [
     "soundness of rustc+Kani's model of core/alloc and of CBMC; soundness of Verus and Z3",
